@@ -7,6 +7,9 @@ package main
 
 import (
 	"fmt"
+	"go/ast"
+	"go/parser"
+	"go/token"
 	"go/types"
 	"os"
 	"path/filepath"
@@ -153,6 +156,39 @@ func c12Census(w *World, r *Report) []*Obligation {
 	}
 	r.Extra["lint_source_files"] = nfiles
 	out = append(out, censusObl("C12", "C12/tree/files#1", "census", "", "every lints/<pkg>/lint_*.go file contains a registration call", len(orphanFiles) == 0, strings.Join(orphanFiles, ", ")))
+
+	// no registration hides in a file that Go compiles only into the package's test binary (any
+	// *_test.go under v3/lints, e.g. the definition file of a lint whose name ends in "_test"): such
+	// a lint passes its own unit test but is never linked into a default build
+	var testOnly []string
+	testFiles, _ := filepath.Glob(filepath.Join(w.RepoDir, "lints", "*", "*_test.go"))
+	tfset := token.NewFileSet()
+	for _, tf := range testFiles {
+		src, err := os.ReadFile(tf)
+		if err != nil || !strings.Contains(string(src), "Register") {
+			continue
+		}
+		af, err := parser.ParseFile(tfset, tf, src, parser.SkipObjectResolution)
+		if err != nil {
+			continue
+		}
+		ast.Inspect(af, func(n ast.Node) bool {
+			ce, ok := n.(*ast.CallExpr)
+			if !ok {
+				return true
+			}
+			if se, ok := ce.Fun.(*ast.SelectorExpr); ok {
+				switch se.Sel.Name {
+				case "RegisterLint", "RegisterCertificateLint", "RegisterRevocationListLint", "RegisterOcspResponseLint":
+					rel, _ := filepath.Rel(w.RepoDir, tf)
+					testOnly = append(testOnly, fmt.Sprintf("%s:%d", rel, tfset.Position(ce.Pos()).Line))
+				}
+			}
+			return true
+		})
+	}
+	r.Extra["lint_test_files_scanned"] = len(testFiles)
+	out = append(out, censusObl("C12", "C12/tree/testonly#1", "census", "", "no lint registration lives in a *_test.go file under v3/lints (it would exist only in the package's test binary)", len(testOnly) == 0, strings.Join(testOnly, ", ")))
 
 	// every directory under v3/lints with Go files is a loaded package that registers lints and is
 	// blank-imported by the root package (so a default build links it in)
